@@ -107,6 +107,24 @@ impl<T> VVec<T> {
         self.n -= 1;
         out.unwrap()
     }
+    /// `Vec::retain`: keeps the elements for which `f` is true, in order
+    pub fn retain<F: FnMut(&T) -> bool>(&mut self, mut f: F) {
+        let mut w = 0;
+        let mut i = 0;
+        while i < VCAP {
+            if i < self.n {
+                let v = self.items[i].take();
+                if let Some(x) = v {
+                    if f(&x) {
+                        self.items[w] = Some(x);
+                        w += 1;
+                    }
+                }
+            }
+            i += 1;
+        }
+        self.n = w;
+    }
     /// `SmallVec::from_vec` / `Vec::from`: identity
     pub fn from_vec(v: VVec<T>) -> Self {
         v
